@@ -132,7 +132,8 @@ def select_case(draw, tier):
             d = draw(st.dictionaries(st.sampled_from(ids), st.sampled_from([1, 2, 3, -1, -2]), max_size=4))
             prios.append([list(kv) for kv in sorted(d.items())])
     return {"model": spec, "prios": prios, "solver": draw(st.sampled_from(["marker", "marker", "marker", "exact", "exact", "exact", "none", "raising"])),
-            "only_leafs": draw(st.integers(0, 2)) > 0, "direct": draw(st.integers(0, 3)) == 0}
+            "only_leafs": draw(st.integers(0, 2)) > 0, "direct": draw(st.integers(0, 3)) == 0,
+            "restored": draw(st.integers(0, 2)) == 0}
 
 
 def check_select(case, ev):
@@ -191,6 +192,16 @@ def check_select(case, ev):
                     raise Violation(f"priority {i!r}={p} got objective weight {w} (wrong sign or column); objective={dict(zip(ids, vec))}")
                 if not p and w > 0:
                     raise Violation(f"column {i!r} without priority got positive weight {w}; priorities={pr}")
+        if case.get("restored") and sname == "marker":
+            # the same request against the configured polyhedron after it was stored and loaded again (to_b64 / from_b64):
+            # the solver is handed the same system and the same objective vectors
+            log2 = []
+            poly2 = call(lambda: pnd.ge_polyhedron_config.from_b64(poly.to_b64()), what="ge_polyhedron_config b64 round trip")
+            list(call(poly2.select, *prios, solver=solvers.marker(log2), what="select on the restored polyhedron"))
+            if len(log2) != 1 or snapshot.array(log2[0]["poly"]) != snapshot.array(log[0]["poly"]) or \
+                    [[int(w_) for w_ in o_] for o_ in log2[0]["objectives"]] != [[int(w_) for w_ in o_] for o_ in log[0]["objectives"]]:
+                raise Violation("the stored-and-restored configured polyhedron hands the solver different objectives / system for the same requests: "
+                                f"{[list(map(int, o_)) for o_ in log2[0]['objectives']] if log2 else None} vs {[list(map(int, o_)) for o_ in log[0]['objectives']]}")
     feas = log[0].get("feasible") if log else None
     for k, r in enumerate(res):
         conf = r if only_leafs else r[0]
